@@ -92,6 +92,10 @@ func GenLockScript(r *Rng, hist map[string]int) []string {
 				add("files")
 				hist["lock_stray_lock_file_in_merge_directory"]++
 			}
+		case 6:
+			// a configuration that checkOptions rejects: nothing is touched, with the directory open or not
+			add("openopts %s", r.PickS("dirpath", "fsize0", "fsizeneg", "ratio", "rationeg", "bps", "thresh0"))
+			hist["lock_open_with_rejected_configuration"]++
 		case 5:
 			if busyDone {
 				add("put %s @%d:%d", engKeys[r.Intn(5)], 1+r.Intn(30), r.Intn(9999))
